@@ -289,6 +289,24 @@ def run_reentrant_restore(prog, tier, repo, crates=('samlang_compiler', 'samlang
                     rf = _recv_field(b, st[1])
                     if rf:
                         writes.append((bi, si, rf, st[2], st[3]))
+        # `let saved = mem::replace(&mut self.f, new)` / `self.f.replace(new)` / `self.f.take()`: an override whose old value is
+        # the call result
+        replaced = {}
+        for bi in sorted(cfg.reach):
+            bl = b.blocks[bi]
+            t = bl.term
+            if bl.cleanup or t[0] != 'call' or not t[3] or t[4] is None or t[4].proj:
+                continue
+            nm = callee(t)[1] or ''
+            if nm.split('::')[-1] in ('replace', 'take') and ('mem::' in nm or 'Option' in nm):
+                o = t[3][0]
+                if o[0] in ('c', 'm') and not o[1].proj:
+                    sd0 = single_def(b, o[1].local)
+                    if sd0 and sd0[1] != 'term' and sd0[2][0] == 'ref':
+                        rf = _recv_field(b, sd0[2][2])
+                        if rf:
+                            writes.append((bi, len(bl.stmts), rf, ('call',), t[7]))
+                            replaced[t[4].local] = (rf, bi)
         if not writes:
             continue
 
@@ -299,6 +317,9 @@ def run_reentrant_restore(prog, tier, repo, crates=('samlang_compiler', 'samlang
             pl = op[1]
             if pl.proj:
                 return False
+            if pl.local in replaced and replaced[pl.local][0] == rf:
+                rb = replaced[pl.local][1]
+                return rb == wpos[0] or cfg.nodes_dominate([rb], wpos[0])
             sd = single_def(b, pl.local)
             if not sd:
                 return False
